@@ -129,35 +129,55 @@ Theorem C16_no_resolver_is_brokenref : forall disk user f,
 Proof. reflexivity. Qed.
 Print Assumptions C16_no_resolver_is_brokenref.
 
-(* ---- the bytes that are parsed *)
+(* ---- what a load depends on *)
 
-(* The loaded model is [parse] of the selected bytes (the rest of __init__ does not look at
-   the container: checked by the snapshot comparison, not proved).  Path, file object and any
-   archive member that holds the bytes d therefore give the same model. *)
-Section SameBytes.
-  Variable model : Type.
-  Variable parse : N -> model.
-  Definition load (k : source_kind) (c : content) (z : option name) (u : bool) : outcome model :=
-    omap (fun x => parse (fst x)) (open_container k c z u).
+(* "The rest of __init__ ignores the container", made explicit: the loaded model is
+   [loader d behaviour] for an ARBITRARY function loader of the selected bytes d and of the
+   resolver's behaviour (auxiliary path -> outcome); see Model/Container.v load_model.  That
+   pycollada's loading really is such a function is checked on every run by the snapshot
+   comparison across containers; the theorems say what then follows. *)
 
-  Theorem C16_same_bytes_same_model : forall d f ms n m k1 k2 z u1 u2 u3 u4,
-    NoDup (map fst ms) ->
-    first_non_decoy (map fst ms) = Some n -> In (n, d) ms ->
-    is_empty_name m = false -> In (m, d) ms ->
-    load (FromPath f) (Plain d) z u1 = Ok (parse d) /\
-    load FromFileObj (Plain d) z u2 = Ok (parse d) /\
-    load k1 (Archive ms) None u3 = Ok (parse d) /\
-    load k2 (Archive ms) (Some m) u4 = Ok (parse d).
-  Proof.
-    intros d f ms n m k1 k2 z u1 u2 u3 u4 ND F Hn Em Hm. unfold load.
-    repeat split; try reflexivity.
-    - pose proof (open_archive_auto k1 ms n d u3 ND F Hn) as H.
-      destruct (open_container k1 (Archive ms) None u3) as [[x r]|]; simpl in *; inversion H; reflexivity.
-    - pose proof (open_archive_named k2 ms m d u4 ND Em Hm) as H.
-      destruct (open_container k2 (Archive ms) (Some m) u4) as [[x r]|]; simpl in *; inversion H; reflexivity.
-  Qed.
-End SameBytes.
+(* with a user loader: path, file object, automatically selected member and named member that
+   hold the bytes d give literally the same (bytes, behaviour) pair, hence the same model,
+   whatever is on disk *)
+Theorem C16_same_bytes_same_model : forall (model : Type) (loader : N -> (name -> outcome N) -> model)
+    d f ms n m k1 k2 z uf disk1 disk2 disk3 disk4,
+  NoDup (map fst ms) -> first_non_decoy (map fst ms) = Some n -> In (n, d) ms ->
+  is_empty_name m = false -> In (m, d) ms ->
+  let expected := Ok (loader d (fun p => match uf p with Some x => Ok x | None => Raise DaeBrokenRef end)) in
+  load_model loader (FromPath f) (Plain d) z (Some uf) disk1 = expected /\
+  load_model loader FromFileObj (Plain d) z (Some uf) disk2 = expected /\
+  load_model loader k1 (Archive ms) None (Some uf) disk3 = expected /\
+  load_model loader k2 (Archive ms) (Some m) (Some uf) disk4 = expected.
+Proof. intros model loader. exact (same_model_user loader). Qed.
 Print Assumptions C16_same_bytes_same_model.
+
+(* without a user loader: the document at m inside an archive, and the same document at the
+   path m in a directory tree holding the same files, give the same model for every loader
+   (the zip resolver and the disk resolver are the same function of the auxiliary path) *)
+Theorem C16_same_model_archive_vs_directory : forall (model : Type) (loader : N -> (name -> outcome N) -> model)
+    d ms m k,
+  NoDup (map fst ms) -> is_empty_name m = false -> In (m, d) ms ->
+  load_model loader (FromPath m) (Plain d) None None ms =
+  load_model loader k (Archive ms) (Some m) None ms.
+Proof. intros model loader. exact (same_model_mirror loader). Qed.
+Print Assumptions C16_same_model_archive_vs_directory.
+
+(* a document that asks for no auxiliary file: the same model from every source kind *)
+Theorem C16_same_model_without_aux : forall (model : Type) (lm : N -> model) d f ms n k z disk1 disk2 disk3,
+  NoDup (map fst ms) -> first_non_decoy (map fst ms) = Some n -> In (n, d) ms ->
+  let loader := fun d (_ : name -> outcome N) => lm d in
+  load_model loader (FromPath f) (Plain d) z None disk1 = Ok (lm d) /\
+  load_model loader FromFileObj (Plain d) z None disk2 = Ok (lm d) /\
+  load_model loader k (Archive ms) None None disk3 = Ok (lm d).
+Proof. intros model lm. exact (same_model_no_aux lm). Qed.
+Print Assumptions C16_same_model_without_aux.
+
+(* the behaviours DO differ by design when no user loader is given: a file object has no
+   resolver at all *)
+Theorem C16_fileobj_behaviour : forall disk uf f, behaviour RNull disk uf f = Raise DaeBrokenRef.
+Proof. reflexivity. Qed.
+Print Assumptions C16_fileobj_behaviour.
 
 Theorem C16_archive_without_document : forall k ms z u e,
   open_container k (Archive ms) z u = Raise e -> e = DaeIncomplete.
